@@ -66,6 +66,17 @@ def install(w):
             return ex.new_map()
         if len(args) == 1 and not kw:
             v = args[0]
+            if isinstance(v, Bound) and v.name == "__zip__" and len(v.obj.items) == 2:
+                # dict(zip(ks, vs)): which key gets which value is not modelled; what is: every
+                # value of the dictionary is an element of vs (used by .get below)
+                m = ex.new_map()
+                m.attrs["dom"] = ex.fresh("zipdict.dom", z3.ArraySort(S.Py, z3.BoolSort()))
+                m.attrs["val"] = ex.fresh("zipdict.val", z3.ArraySort(S.Py, S.Py))
+                n = ex.fresh("zipdict.n", z3.IntSort())
+                ex.assume(n >= 0)
+                m.attrs["n"] = n
+                m.attrs["values_from"] = ex.to_list(v.obj.items[1], getattr(e, "lineno", None))
+                return m
             if isinstance(v, Obj) and v.cls == "dict":
                 m = ex.new_map()
                 m.attrs.update({k: v.attrs[k] for k in ("dom", "val", "n")})
@@ -292,6 +303,42 @@ def install(w):
     @b("wf")
     def _wf(ex, args, kw, e, env):
         return Z(ex.w.wf.f(ex.to_py(args[0])))
+
+    @b("wf_arglist")
+    def _wf_arglist(ex, args, kw, e, env):
+        return Z(ex.w.wf.list_fn("arg")(ex.to_list(args[0])))
+
+    @b("wf_kwlist")
+    def _wf_kwlist(ex, args, kw, e, env):
+        return Z(ex.w.wf.list_fn("keyword")(ex.to_list(args[0])))
+
+    @b("dict_values_from")
+    def _dict_values_from(ex, args, kw, e, env):
+        """The list every value of a dict(zip(ks, vs)) dictionary is taken from (ghost)."""
+        d = args[0]
+        if isinstance(d, Obj) and "values_from" in d.attrs:
+            return Z(d.attrs["values_from"])
+        raise Unsupported("dict_values_from of a dictionary that was not built by dict(zip(...))")
+
+    @b("glob")
+    def _glob(ex, args, kw, e, env):
+        """glob('name'): the current value of a module variable the function declares global."""
+        return ex.global_value(const_str(args[0]), env)
+
+    @b("old_glob")
+    def _old_glob(ex, args, kw, e, env):
+        n = const_str(args[0])
+        ex.global_value(n, env)
+        ov = getattr(ex.ctx, "globals_old_override", None)
+        if ov is not None and n in ov:
+            return ov[n]          # inside a callee's postcondition: the value just before the call
+        return ex.ctx.globals_old[n]
+
+    @b("str_format")
+    def _str_format(ex, args, kw, e, env):
+        """fmt.format(args...) as the library model has it: an uninterpreted function of both."""
+        f = ex.w.ufun("str_format", z3.StringSort(), ex.S.Py, z3.StringSort())
+        return Z(f(ex.to_str(args[0]), ex.to_py(Tup(list(args[1:])))))
 
     @b("wf_exprs")
     def _wf_exprs(ex, args, kw, e, env):
@@ -563,7 +610,30 @@ def install(w):
     def _is_empty(ex, args, kw, e, env):
         return Z(ex.S.is_nil(ex.to_list(args[0])))
 
-    for tname in ("int", "bool", "float", "bytes"):
+    @b("int")
+    def _int(ex, args, kw, e, env):
+        """int(s) of a string: TRUSTED library fact - it does not raise when s.isdecimal() (the
+        obligation), and the value is a non-negative integer (an uninterpreted function of s)."""
+        if len(args) == 1 and not kw:
+            v = args[0]
+            if isinstance(v, Z) and v.t.sort() == z3.IntSort():
+                return v
+            sv = ex.to_str(v, getattr(e, "lineno", None))
+            dec = ex.w.ufun("str_isdecimal", z3.StringSort(), z3.BoolSort())
+            ex.oblige("safety", "ValueError:int-of-non-decimal-string", dec(sv), getattr(e, "lineno", None))
+            f = ex.w.ufun("str_to_int", z3.StringSort(), z3.IntSort())
+            ex.assume(f(sv) >= 0)
+            return Z(f(sv))
+        raise Unsupported("int() conversion of this form")
+
+    @b("max")
+    def _max(ex, args, kw, e, env):
+        if len(args) == 2 and not kw:
+            a, b2 = ex.to_int(args[0]), ex.to_int(args[1])
+            return Z(z3.If(a >= b2, a, b2))
+        raise Unsupported("max() of this form")
+
+    for tname in ("bool", "float", "bytes"):
         def mk(tn):
             def conv(ex, args, kw, e, env):
                 raise Unsupported(f"{tn}() conversion")
@@ -587,6 +657,17 @@ def install(w):
             return Obj(v.cls, v.attrs, fresh="shallow")
         raise Unsupported("copy.copy of executor value")
     L["copy.copy"] = copy_copy
+
+    def ast_walk(ex, args, kw, e, env):
+        """TRUSTED model of ast.walk(n): some list of nodes (which nodes, and that all are met, is
+        not modelled: only facts that hold whatever nodes are met can be proved through it)."""
+        t = ex.to_py(args[0])
+        f = ex.w.ufun("ast_walk", ex.S.Py, ex.S.PyList)
+        if "is_nodes" in ex.w.specs:
+            # ... of a well-formed tree: well-formed nodes
+            ex.assume(z3.Implies(ex.w.wf.f(t), ex.w.specs["is_nodes"].f(f(t))))
+        return Z(f(t), fresh="shallow", origin="ast.walk(...)")
+    L["ast.walk"] = ast_walk
 
     def copy_deepcopy(ex, args, kw, e, env):
         v = args[0]
@@ -992,6 +1073,9 @@ def value_methods(ex, obj, name, args, kw, line):
         if name == "get":
             k = ex.to_py(args[0])
             d = ex.to_py(args[1]) if len(args) > 1 else P.PNone
+            if "values_from" in obj.attrs:
+                ex.assume(z3.Implies(z3.Select(obj.attrs["dom"], k),
+                                     S.contains(obj.attrs["values_from"], z3.Select(obj.attrs["val"], k))))
             return Z(z3.If(z3.Select(obj.attrs["dom"], k), z3.Select(obj.attrs["val"], k), d))
         if name == "items" and not args:
             # iteration over the pairs of the dictionary: see loops.symbolic_seq
